@@ -16,8 +16,8 @@ def mk(name, dials, accepts, mode="ctl", seed=0, lagpct=0, holds=None, endat=Non
             "script": script or [], "fam": fam}
 
 
-def call(name, side, id_, at):
-    return {"name": name, "side": side, "id": id_, "at": at}
+def call(name, side, id_, at, abort=False):
+    return {"name": name, "side": side, "id": id_, "at": at, "abort": abort}
 
 
 def other(s):
@@ -48,8 +48,14 @@ def fam_pairs(rng, n, prefix="pair"):
             dials.append(call("d%d" % (j + 1), dside, id_, dt))
             accepts.append(call("a%d" % (j + 1), other(dside), id_, at))
         mode = rng.choice(["ctl", "ctl", "free"])
-        out.append(mk("%s%d" % (prefix, i), dials, accepts, mode=mode, seed=rng.randint(1, 1 << 30),
-                      nextids=rng.choice([0, 0, 4]), fam="pairs"))
+        sc = mk("%s%d" % (prefix, i), dials, accepts, mode=mode, seed=rng.randint(1, 1 << 30),
+                nextids=rng.choice([0, 0, 4]), fam="pairs")
+        if i % 5 == 0:
+            # a large transfer long after the rendezvous, the reader starting late
+            sc.update({"bulk_len": rng.choice([300000, 1 << 20]), "bulk_delay": rng.choice([100, 5500, 12000]),
+                       "bulk_read_delay": rng.choice([0, 500]), "mode": "free"})
+            sc["endat"] += 20000
+        out.append(sc)
     return out
 
 
@@ -81,6 +87,12 @@ def history_piece(rng, kind, id_, side, t0, idx):
     elif kind == "late_dial":
         a.append(call(n("a", "a"), other(side), id_, t0))
         d.append(call(n("d", "a"), side, id_, t0 + rng.choice([5000, 5001, 7000])))
+    elif kind == "peer_abort":
+        # the peer opens a stream and closes it before writing the id
+        d.append(call(n("x", "a"), side, id_, t0, abort=True))
+    elif kind == "peer_abort_then_accept":
+        d.append(call(n("x", "a"), side, id_, t0, abort=True))
+        a.append(call(n("a", "a"), other(side), id_, t0 + rng.choice([0, 10])))
     elif kind == "second_dial_after_take":
         # a second dial is parked into the slot after the acceptor emptied it (acceptor held
         # before it closes doneCh, so the slot is still registered)
@@ -92,7 +104,8 @@ def history_piece(rng, kind, id_, side, t0, idx):
 
 
 KINDS = ["dial_noaccept", "accept_nodial", "double_dial", "double_dial_accept", "accept_at_expiry_hold",
-         "accept_at_expiry_instant", "late_accept", "late_dial", "second_dial_after_take"]
+         "accept_at_expiry_instant", "late_accept", "late_dial", "second_dial_after_take", "peer_abort",
+         "peer_abort_then_accept"]
 
 
 def fam_histories(rng, n, maxlen=3, prefix="hist"):
